@@ -163,6 +163,8 @@ def run(rep, tier):
         if nobl < 25:
             rep.broken.append("%s: only %d obligations found in %s" % (rid, nobl, cname))
         rule_locals(rep, m, cname, req_by_type, b)
+        if lv == "O0":
+            rule_virtual_dtor(rep, m, cname)
     rep.floor(rid, 25 * len(jobs))
 
 
@@ -178,6 +180,54 @@ def _wiped_at_o3(b, fname, required, cache):
     if fname not in summ3 or fname not in m3.funcs or m3.funcs[fname].decl:
         return False
     return required <= set(summ3[fname].must.get(0, frozenset()))
+
+
+def rule_virtual_dtor(rep, m, cname):
+    """D4: the C++ cipher classes are used through the polymorphic interface
+    ascon::aead; their secrets are wiped by the destructor of the concrete class.
+    `delete p` / unique_ptr<ascon::aead> run that destructor only if it is
+    virtual, i.e. if the class's vtable has destructor slots.  For every class
+    of the library with a vtable and a destructor defined in the library, the
+    vtable (pointer slots dumped by irdump) must hold that destructor."""
+    rid = "C13.D4"
+    rep.rule(rid, "polymorphic classes: the wiping destructor is virtual (it sits in the class's vtable), so destruction through the base interface wipes")
+    n = 0
+    for gname, g in sorted(m.globals.items()):
+        mm = re.match(r"^_ZTV(N5ascon\w+E)$", gname)
+        if not mm or g.get("decl"):
+            continue
+        cls = mm.group(1)                      # N5ascon7aead128E
+        dtors = ["_Z%sD%dEv" % (cls[:-1], k) for k in (0, 1, 2)]
+        have = [d for d in dtors if d in m.funcs and not m.funcs[d].decl]
+        if not have:
+            continue
+        n += 1
+        slots = set(sym for _off, sym in g.get("ptrs", []))
+        if "ptrs" not in g and "bytes" not in g:
+            rep.unproved_item(rid, "%s: vtable %s has no dumped initialiser" % (cname, gname))
+            continue
+        if slots & set(dtors):
+            rep.instance(rid, 1, {"config": cname, "class": cls, "vtable_destructor": sorted(slots & set(dtors))})
+        else:
+            f = m.funcs[have[0]]
+            rep.violation(rid, "%s:non-virtual-destructor" % cls, f.src,
+                          "the destructor of class %s is not virtual (its vtable %s has no destructor slot): destroying the object "
+                          "through a pointer to its polymorphic base (delete, unique_ptr<ascon::aead>) runs only the base "
+                          "destructor and leaves the key / state members unwiped" % (demangle_cls(cls), gname), config=cname)
+    if n == 0:
+        rep.unproved_item(rid, "%s: no polymorphic class with a destructor found" % cname)
+
+
+def demangle_cls(c):
+    out, s = [], c[1:-1]
+    while s:
+        mm = re.match(r"(\d+)", s)
+        if not mm:
+            break
+        k = int(mm.group(1))
+        out.append(s[len(mm.group(1)):len(mm.group(1)) + k])
+        s = s[len(mm.group(1)) + k:]
+    return "::".join(out)
 
 
 _ASM_WIPES = {}
